@@ -124,6 +124,16 @@ def stD (w : World) (cfg : Cfg) : Ty → Obj → Res
       | .ok m => if h : m ∈ cs then stD w cfg (.cls m) o else .error .leaf
       | .none => .ok .none
       | _ => .error .leaf
+  | .nt c, o =>
+      -- the heterogeneous-tuple hook's group (index notes, one un-indexed leaf for a wrong arity), then `cl(*res)`
+      match h : iterItems o with
+      | Option.none => .error .leaf
+      | some xs =>
+        if w.isNT c then
+          let (ys, errs) := stDT w cfg 0 (w.ntTys c) xs
+          let errs := if xs.length != (w.ntTys c).length then errs ++ [(Option.none, Err.leaf)] else errs
+          if !errs.isEmpty then .error (.ive errs) else .ok (ntMk w c ys)
+        else .error .leaf
   | _, _ => .error .leaf
 termination_by t x => (sizeOf x, sizeOf t)
 decreasing_by
